@@ -512,6 +512,23 @@ bool DependencyScan::RecomputeNodeDirty(Node* node, std::vector<Node*>* stack,
         if (!dirty && most_recent_input_previous != most_recent_input)
           dirty = recomputeOutputsDirty.depfile(most_recent_input);
       }
+    } else if (std::all_of(edge->outputs_.begin(), edge->outputs_.end(),
+                           [](const Node* o) { return o->exists(); })) {
+      // The edge is dirty because of its declared inputs, but a restat rule
+      // may clean it again (Plan::CleanNode) and its generated discovered
+      // deps must be built before it: the discovered deps still count.
+      // (When an output is missing the edge is rebuilt unconditionally and
+      // the recorded deps may describe an older graph.)
+      std::optional<EdgeInputsRange> new_deps = dep_loader_.LoadDeps(edge, err);
+      if (!new_deps) {
+        if (!err->empty())
+          return false;
+        edge->deps_missing_ = true;
+      } else if (!RecomputeEdgesInputsDirty(node, new_deps.value(),
+                                            most_recent_input, dirty, stack,
+                                            validation_nodes, err)) {
+        return false;
+      }
     } else if (!dep_loader_.LoadDepsTry(edge, err)) {
       if (!err->empty())
         return false;
